@@ -93,19 +93,19 @@ fn $name() {
     };
 }
 
-//@ props=C07 tier=experimental timeout=1200 mem=20 cap=2 name=c07_apply_error
+//@ props=C07 tier=experimental timeout=1200 mem=16 cap=2 name=c07_apply_error
 //@ functions=CoapRequest::apply_from_error, Packet::set_content_format, Packet::get_content_format, CoapResponse::new
 //@ bounds=request: any first byte / code / id, token of 2 symbolic bytes; error code: None or any status a code byte names or UnKnown; message 0..3 ASCII bytes; response pre-state: an existing Content-Format value (2 symbolic bytes) and a payload byte
 //@ what=true iff a response exists and the error has a code; then code, payload and content format are the error's (text/plain) and id, token, type, version are untouched; otherwise nothing changes
 c07_apply_error!(c07_apply_error, true);
 
-//@ props=C07 tier=quick timeout=1200 mem=20 cap=2 name=c07_apply_error_fresh
+//@ props=C07 tier=quick timeout=1200 mem=5 cap=2 name=c07_apply_error_fresh
 //@ functions=CoapRequest::apply_from_error, Packet::set_content_format, Packet::get_content_format, CoapResponse::new
 //@ bounds=request: any first byte / code / id, token of 2 symbolic bytes; error code: None or any status a code byte names or UnKnown; message 0..3 ASCII bytes; response pre-state: no Content-Format yet, a payload byte
 //@ what=true iff a response exists and the error has a code; then code, payload and content format are the error's (text/plain) and id, token, type, version are untouched; otherwise nothing changes
 c07_apply_error!(c07_apply_error_fresh, false);
 
-//@ props=C19 tier=quick timeout=600 model=0
+//@ props=C19 tier=quick timeout=600 model=0 mem=4
 //@ functions=CoapRequest::get_method, CoapRequest::set_method
 //@ bounds=code byte: all 256 values
 //@ what=get_method names the method iff the raw code is 0.01-0.07, UnKnown otherwise; set_method stores the registry byte and reads back
@@ -284,19 +284,19 @@ macro_rules! c19_get_path {
     };
 }
 
-//@ props=C19 tier=quick timeout=1500 mem=16 cap=2 name=c19_set_path_ab
+//@ props=C19 tier=quick timeout=1500 mem=4 cap=2 name=c19_set_path_ab
 //@ functions=CoapRequest::set_path, Packet::clear_option, Packet::add_option
 //@ bounds=path string "a/b" (concrete); pre-state: one older one-byte Uri-Path segment (symbolic byte)
 //@ what=set_path replaces the Uri-Path values by the segments of the string
 c19_set_path!(c19_set_path_ab, true, "a/b", ["a", "b"]);
 
-//@ props=C19 tier=quick timeout=1500 mem=16 cap=2 name=c19_set_path_ab_fresh
+//@ props=C19 tier=quick timeout=1500 mem=4 cap=2 name=c19_set_path_ab_fresh
 //@ functions=CoapRequest::set_path
 //@ bounds=path string "a/b" (concrete) on a request without Uri-Path
 //@ what=set_path stores the segments
 c19_set_path!(c19_set_path_ab_fresh, false, "a/b", ["a", "b"]);
 
-//@ props=C19 tier=quick timeout=1500 mem=16 cap=2 name=c19_set_path_slashes
+//@ props=C19 tier=quick timeout=1500 mem=17 cap=2 name=c19_set_path_slashes
 //@ functions=CoapRequest::set_path
 //@ bounds=path string "/a//" (concrete: leading slash, empty middle and trailing segments); pre-state as c19_set_path_ab
 //@ what=one leading slash is dropped, every other segment - empty ones included - is kept (count and first segment; the empty segments' bytes are not touched)
@@ -320,7 +320,7 @@ fn c19_set_path_slashes() {
     core::mem::forget(req);
 }
 
-//@ props=C19 tier=quick timeout=1500 mem=16 cap=2 name=c19_set_path_root
+//@ props=C19 tier=quick timeout=1500 mem=5 cap=2 name=c19_set_path_root
 //@ functions=CoapRequest::set_path
 //@ bounds=path string "/" (concrete); pre-state as c19_set_path_ab
 //@ what=only ONE leading slash is dropped: "/" is one empty segment
@@ -350,7 +350,7 @@ fn c19_set_path_root() {
     core::mem::forget(req);
 }
 
-//@ props=C19 tier=quick timeout=1500 mem=16 cap=2 name=c19_set_path_dslash
+//@ props=C19 tier=quick timeout=1500 mem=4 cap=2 name=c19_set_path_dslash
 //@ functions=CoapRequest::set_path
 //@ bounds=path string "//a" (concrete); pre-state as c19_set_path_ab
 //@ what=only ONE leading slash is dropped: "//a" is an empty segment followed by "a"
@@ -380,27 +380,27 @@ fn c19_set_path_dslash() {
     core::mem::forget(req);
 }
 
-//@ props=C19 tier=quick timeout=1500 mem=16 cap=2 name=c19_set_path_empty
+//@ props=C19 tier=quick timeout=1500 mem=4 cap=2 name=c19_set_path_empty
 //@ functions=CoapRequest::set_path
 //@ bounds=path string "" (concrete); pre-state as c19_set_path_ab
 //@ what=the empty path clears the Uri-Path values
 c19_set_path!(c19_set_path_empty, true, "", []);
 
-//@ props=C19 tier=quick timeout=1500 mem=16 cap=3 name=c19_get_path_ab
+//@ props=C19 tier=quick timeout=1500 mem=20 cap=3 name=c19_get_path_ab
 //@ functions=CoapRequest::get_path, CoapRequest::get_path_as_vec, OptionValueString::try_from
 //@ bounds=raw Uri-Path values "a", "b" (concrete) next to a Uri-Query value with a symbolic byte
 //@ what=get_path = segments joined by '/', get_path_as_vec = the segments
 //@ assumes=core::str::from_utf8 replaced by the byte-loop RFC 3629 model
 c19_get_path!(c19_get_path_ab, 6, "a/b", ["a", "b"]);
 
-//@ props=C19 tier=thorough timeout=1800 mem=16 cap=3 name=c19_get_path_slashes
+//@ props=C19 tier=thorough timeout=1800 mem=13 cap=3 name=c19_get_path_slashes
 //@ functions=CoapRequest::get_path, CoapRequest::get_path_as_vec
 //@ bounds=raw Uri-Path values "a", "", "" (concrete)
 //@ what=empty segments are kept by both getters
 //@ assumes=core::str::from_utf8 replaced by the byte-loop RFC 3629 model
 c19_get_path!(c19_get_path_slashes, 6, "a//", ["a", "", ""]);
 
-//@ props=C19 tier=thorough timeout=1800 mem=16 cap=3 name=c19_get_path_utf8
+//@ props=C19 tier=thorough timeout=1800 mem=13 cap=3 name=c19_get_path_utf8
 //@ functions=CoapRequest::get_path, CoapRequest::get_path_as_vec
 //@ bounds=raw Uri-Path values ".well-known" and a two-byte character (concrete)
 //@ what=non-ASCII segments read back byte for byte
